@@ -8,17 +8,19 @@ Property theorems only (models: `Hash/Model.lean`; lemmas: `Hash/Lemmas*.lean`, 
 `Hash/Discriminate*.lean`).  The digest function `H` is a parameter everywhere; the only assumption ever made about it is
 that it returns 16 bytes (`digest_size=16`).
 
-FULL STATEMENT (kept visible; NOT provable for the tree as it is):
-  `def C08_full_statement` below — for ALL values: same content ⇒ same hash; different content ⇒ different hash or a
-  collision of H; hashing inside any context = hashing alone.
-What the tree violates and where the partial theorems stop:
-  * sets/dicts are ordered with Python's `<` on the elements: only a partial order on sets of sets, a TypeError on
-    unorderable classes (D6)  →  `C08_order_indep` needs `sortable v`; witness `C08_witness_partial_order`;
-  * a back reference is answered with the one-byte placeholder (D61)  →  `C08_context_free` needs `UniqueIds`
+FULL STATEMENT (kept visible; NOT provable for the tree as it is): `def C08_full_statement` below — for ALL values: same
+content ⇒ same hash; hashing inside any context = hashing alone.
+Status on the current tree:
+  * sets / frozensets: REPAIRED (D6, fix 847ae56e: elements ordered by their digests).  `C08_order_indep` needs nothing for
+    sets any more; `C08_regression_set_of_sets` / `C08_regression_unorderable_set` are the former witnesses, now passing;
+    `C08_old_sorted_by_value` documents what the OLD algorithm (`sortedByValue`) did to them;
+  * dict keys / attribute names are still ordered with Python's `<` (`sorted(mapping)`): `C08_order_indep` keeps the
+    decidable hypothesis `sortable` for them (keys of mutually unorderable classes raise TypeError: finding D68);
+  * a back reference is answered with the one-byte placeholder (D66)  →  `C08_context_free` needs `UniqueIds`
     (tree / DAG values); witness `C08_witness_cycle`;
-  * PEP 585 aliases and lambdas lose their content before any byte is produced (D60, D62): the model's value grammar
-    represents what the serializer *sees* (an object without distinguishing attributes; an empty chunk list), so these
-    two are witnessed on the implementation by the harness, not by a Lean theorem.
+  * PEP 585 aliases: REPAIRED (D65, fix 4172742a), regression cases in the harness.  Lambdas lose their content before any
+    byte is produced (D67): the model's value grammar represents what the serializer *sees* (an empty chunk list), so this
+    one is witnessed on the implementation by the harness, not by a Lean theorem.
 -/
 namespace PydraModel.Hash
 open PydraModel.Gen
@@ -61,9 +63,10 @@ theorem C08_sorted_perm {α : Type} (lt : α → α → Except Err Bool) (ltb : 
   obtain ⟨h1, h2⟩ := pySorted_perm_eq lt ltb xs ys hp ha ht
   exact ⟨h1, _, h2, pySortedB_perm ltb xs, pySortedB_sorted ltb xs ht⟩
 
-/-- PARTIAL (hypothesis `sortable v`, decidable): two values with the same type and content — whatever the
-    iteration order of their sets, the insertion order of their dicts, the identity of their parts — get the same
-    hash, and hashing them does not fail. -/
+/-- Two values with the same type and content — whatever the iteration order of their sets, the insertion order of
+    their dicts, the identity of their parts — get the same hash, and hashing them does not fail.  FULL for sets and
+    frozensets (ordered by digest); the hypothesis `sortable v` (decidable) only concerns dict keys and attribute names,
+    which `sorted(mapping)` still compares with Python's `<`. -/
 theorem C08_order_indep (H : Bytes → Bytes) (v w : PyVal) (he : Equiv v w) (hs : sortable v = true) :
     ∃ h, hashAlone H v = .ok h ∧ hashAlone H w = .ok h := by
   obtain ⟨p, q, h1, h2, h3⟩ := order_indep_val H v w he hs
@@ -135,37 +138,29 @@ def sB : PyVal := .set 3 true [.sc (.str [99]), .sc (.str [100])]    -- frozense
 def d6a : PyVal := .set 1 true [sA, sB]
 def d6b : PyVal := .set 1 true [sB, sA]
 
-def frozensetOpen : Bytes := setName true ++ HashLits.setOpen
-
-/-- WITNESS (D6): the two iteration orders of `{{'a','b'},{'c','d'}}` have the same content, are outside `sortable`,
-    `sorted` leaves each order as it is, and the byte strings finally fed to `H` carry the two inner digests in opposite
-    orders: the hashes can only agree if `H` collides on those two strings or on the two inner sets. -/
-theorem C08_witness_partial_order (H : Bytes → Bytes) (hlen : ∀ x, (H x).length = 16) :
-    Equiv d6a d6b ∧ sortable d6a = false
-    ∧ ∃ ha hb x y, hashAlone H sA = .ok ha ∧ hashAlone H sB = .ok hb
-        ∧ x = frozensetOpen ++ (ha ++ (hb ++ HashLits.setClose)) ∧ y = frozensetOpen ++ (hb ++ (ha ++ HashLits.setClose))
-        ∧ hashAlone H d6a = .ok (H x) ∧ hashAlone H d6b = .ok (H y)
-        ∧ (ha ≠ hb → x ≠ y) := by
-  refine ⟨?_, by decide, ?_⟩
-  · simp only [d6a, d6b, Equiv]
+/-- REGRESSION (D6 repaired, fix 847ae56e): the two iteration orders of `{{'a','b'},{'c','d'}}` have the same content,
+    are inside `sortable`, and get the same hash for EVERY digest function. -/
+theorem C08_regression_set_of_sets (H : Bytes → Bytes) :
+    Equiv d6a d6b ∧ sortable d6a = true ∧ ∃ h, hashAlone H d6a = .ok h ∧ hashAlone H d6b = .ok h := by
+  have he : Equiv d6a d6b := by
+    simp only [d6a, d6b, Equiv]
     refine ⟨trivial, [sA, sB], List.Perm.swap _ _ _, ?_⟩
     simp only [EquivList, sA, sB, Equiv]
     exact ⟨⟨trivial, _, List.Perm.refl _, by simp [EquivList, Equiv]⟩,
       ⟨trivial, _, List.Perm.refl _, by simp [EquivList, Equiv]⟩, trivial⟩
-  · refine ⟨_, _, _, _, rfl, rfl, rfl, rfl, ?_, ?_, ?_⟩
-    · show hashAlone H d6a = _
-      rfl
-    · show hashAlone H d6b = _
-      rfl
-    · intro hne heq
-      have h1 := List.append_cancel_left heq
-      have hl : (H (evalPureList H [lit frozensetOpen, Pre.node 0 [lit (encScalar (.str [97]))],
-          Pre.node 0 [lit (encScalar (.str [98]))], lit HashLits.setClose])).length = 16 := hlen _
-      obtain ⟨e1, _⟩ := List.append_inj h1 (by
-        show (evalPure H _).length = (evalPure H _).length
-        simp only [evalPure]
-        rw [hlen, hlen])
-      exact hne e1
+  exact ⟨he, by decide, C08_order_indep H d6a d6b he (by decide)⟩
+
+/-- REGRESSION (D6 repaired): a set whose elements Python's `<` cannot compare (`{'a', None}`) is hashed without error. -/
+theorem C08_regression_unorderable_set (H : Bytes → Bytes) :
+    ∃ h, hashAlone H (.set 1 true [.sc (.str [97]), .sc .none]) = .ok h := ⟨_, rfl⟩
+
+/-- DOCUMENTATION of the OLD algorithm (`sorted(obj)` on the values, before fix 847ae56e): it left both iteration orders
+    of `{{'a','b'},{'c','d'}}` as they were (proper subset is only a partial order), so the digests were emitted in
+    iteration order, i.e. in an order chosen by PYTHONHASHSEED; and it raised TypeError on `{'a', None}`. -/
+theorem C08_old_sorted_by_value :
+    sortedByValue [sA, sB] = .ok [sA, sB] ∧ sortedByValue [sB, sA] = .ok [sB, sA]
+    ∧ sortedByValue [.sc (.str [97]), .sc .none] = .error .typeError := by
+  refine ⟨rfl, rfl, rfl⟩
 
 /-- `a = [b, 1]`, `b = [a]` seen from `a` (ids 1 and 2). -/
 def cycA : PyVal := .seq 1 .list [.seq 2 .list [.ref 1], .sc (.int 1)]
@@ -174,7 +169,7 @@ def cycB : PyVal := .seq 2 .list [.seq 1 .list [.ref 2, .sc (.int 1)]]
 
 def listOpen : Bytes := seqOpenLit .list
 
-/-- WITNESS (D61): `a` hashed after `b` with the same `Cache` is served from the memo with the digest it got while
+/-- WITNESS (D66): `a` hashed after `b` with the same `Cache` is served from the memo with the digest it got while
     `b` was in progress — computed from the ONE-byte placeholder — whereas alone it is computed from `b`'s 16-byte
     digest: two different byte strings, so the two hashes of `a` agree only if `H` collides on them. -/
 theorem C08_witness_cycle (H : Bytes → Bytes) (hlen : ∀ x, (H x).length = 16) :
